@@ -205,6 +205,8 @@ pub fn gen(seed: u64, thorough: bool) -> Vec<String> {
             qs.push(format!("{}.{}.{}", rng.pick(&is), rng.pick(&ls), rng.pick(&ks)));
         }
         qs.push("0.0.0".to_string());
+        // indices beyond u32: `get` takes a usize, the array length is a u32 (a truncating cast must not alias)
+        qs.push(format!("{}.0.0", (1u64 << 32) * (1 + rng.below(3)) + rng.below(arr_len.max(1))));
         qs.push(format!("{}.{}.{}", arr_len.saturating_sub(1), mips.saturating_sub(1).min(255), 0));
         let d_s = d.map(|x| x.to_string()).unwrap_or("-".into());
         let n_iter = *rng.pick(&[0u32, 5, 40, 40, 300]);
@@ -374,6 +376,12 @@ pub fn run(line: &str) -> Option<(String, Vec<String>)> {
             DataLayout::TextureArray(a) => match a.get(i as usize) {
                 None => "-".into(),
                 Some(t) => {
+                    if i >= a.len() as u64 {
+                        oracle.push(format!(
+                            "TextureArray::get({i}) returns a texture although the array has {} elements (iteration yields none at that index)",
+                            a.len()
+                        ));
+                    }
                     if l > 255 {
                         "-".into()
                     } else {
